@@ -1,4 +1,127 @@
 import TensorModel.Run
-/-! C16 — property theorems. -/
+import TensorModel.Proofs.ColMajor
+import TensorModel.Props.C01
+import TensorModel.Props.C05
+/-!
+  C16 — a column-major tensor is the array with the same logical contents.
+  Property theorems only (helper lemmas: `Proofs/ColMajor.lean`, `Proofs/Ltoi.lean`, `Proofs/Iter.lean`,
+  `Proofs/Kernels.lean`). The statements say that the *metadata-level* functions every operation is
+  built from (coordinate → offset, iteration order, the iterator-path decision of the engine glue and
+  of Copy) are order-independent at the level of coordinates: a column-major operand is addressed by
+  coordinate exactly like a row-major one, only the cell that holds a coordinate differs (`colRank`
+  instead of `rowRank`).
+-/
+set_option linter.unusedSimpArgs false
 namespace TM.C16
+open TM
+
+/-! ## element access -/
+
+/-- Column-major strides as computed by `CalcStridesColMajor` for a proper n-d shape (not a vector, not
+    scalar-equivalent): `At(c)` addresses the cell whose column-major rank is `c`, for every rank. -/
+theorem colMajor_at (shape : Shape) (c : List Int) (hv : isVector shape = false) (hs : isScalarEquiv shape = false)
+    (hc : inBox shape c = true) :
+    ltoi shape (calcStridesCol shape) c = .ok (colRank shape c) := by
+  unfold calcStridesCol
+  simp only [hs, hv, Bool.false_eq_true, if_false]
+  exact C01.ltoi_colMajor shape c hc
+
+/-- distinct in-range coordinates of a column-major tensor are held by distinct cells inside the window -/
+theorem colMajor_covers (shape : Shape) (c c' : List Int) (hc : inBox shape c = true) (hc' : inBox shape c' = true) :
+    (0 ≤ colRank shape c ∧ colRank shape c < prod shape) ∧ (colRank shape c = colRank shape c' → c = c') :=
+  ⟨C01.colRank_bounds shape c hc, C01.colRank_inj shape c c' hc hc'⟩
+
+/-- a coordinate outside the box is rejected whatever the data order (the check does not look at strides) -/
+theorem colMajor_rejects (shape : Shape) (c : List Int) (hv : isVector shape = false) (hs : isScalarEquiv shape = false)
+    (harity : c.length = shape.length) (hbad : inBox shape c = false) :
+    ∃ tag, ltoi shape (calcStridesCol shape) c = .error (.err tag) := by
+  apply C01.ltoi_rejects shape _ c _ harity hbad
+  unfold calcStridesCol
+  simp only [hs, hv, Bool.false_eq_true, if_false]
+  exact prefixProds_length shape 1
+
+/-! ## iteration -/
+
+/-- The flat iterator of a column-major tensor visits the logical elements in *row-major order of
+    coordinates* (the same order as for a row-major tensor): its k-th offset is the column-major rank of
+    the k-th coordinate. -/
+theorem colMajor_iter_logical (shape : Shape) (o : Order) (hpos : ∀ d ∈ shape, 0 < d)
+    (hnv : isVectorLike shape = false) :
+    FlatIt.offsets { shape := shape, strides := prefixProds 1 shape, fin := true, o := o } =
+      (allCoords shape).map (colRank shape) := by
+  have h := C05.ndNext_run { shape := shape, strides := prefixProds 1 shape, fin := true, o := o }
+    ⟨prefixProds_length shape 1, hpos⟩ (by simp [AP.isVectorLike, hnv])
+  rw [h]
+  rfl
+
+/-- … and for the row-major twin it is the row-major rank of the same k-th coordinate: iterating a
+    column-major and a row-major tensor of one shape side by side pairs equal coordinates. -/
+theorem rowMajor_iter_logical (shape : Shape) (o : Order) (hpos : ∀ d ∈ shape, 0 < d)
+    (hnv : isVectorLike shape = false) :
+    FlatIt.offsets { shape := shape, strides := calcStrides shape, fin := true, o := o } =
+      (allCoords shape).map (rowRank shape) := by
+  have h := C05.ndNext_run { shape := shape, strides := calcStrides shape, fin := true, o := o }
+    ⟨calcStrides_length shape, hpos⟩ (by simp [AP.isVectorLike, hnv])
+  rw [h]
+  rfl
+
+/-! ## operations on operands of different data order -/
+
+/-- `prepDataVV`: operands of different data order never reach the raw (storage-order) kernels: the
+    engine takes the iterator path — safe mode shown; the call is the clone of `a` followed by the
+    iterator kernel over both operands' own iterators. -/
+theorem mixed_order_uses_iterators (st : St) (op : String) (a b : Dense)
+    (hsh : shapeEq a.shape b.shape = true) (hdt : a.dt = b.dt) (hnum : a.dt ∈ numberTypes)
+    (hk : a.dt ∈ kernelTypes op) (hord : a.ap.o.col ≠ b.ap.o.col) (hma : a.mask = none) (hmb : b.mask = none) :
+    engArithVV st op numberTypes a b {} = (do
+      let (s, c) ← a.clone st
+      let s ← eOpIter s c.win b.win (fun x y => .app2 op x y) (a.offsets.map (·, true)) (b.offsets.map (·, true))
+        (vecFn op a.dt)
+      pure ⟨s, none, .fresh c⟩) := by
+  apply engArithVV_iter_safe_ord st op numberTypes a b ⟨by simpa using hnum, hdt, hsh⟩ (by simpa using hk) _ hma hmb
+  unfold sameOrd
+  simpa using hord
+
+/-- Arithmetic on operands of different data order is coordinate-wise: the result cell at `a`'s k-th
+    iterator offset is `op` of the k-th logical element of `a` and the k-th logical element of `b`
+    (k-th in row-major order of coordinates for both, by `colMajor_iter_logical` /
+    `rowMajor_iter_logical`); every existing buffer — both operands — is unchanged. -/
+theorem mixed_order_arith_coordinatewise (st : St) (op : String) (a b : Dense)
+    (hsh : shapeEq a.shape b.shape = true) (hdt : a.dt = b.dt) (hnum : a.dt ∈ numberTypes)
+    (hk : a.dt ∈ kernelTypes op) (hord : a.ap.o.col ≠ b.ap.o.col)
+    (hma : a.mask = none) (hmb : b.mask = none) (hla : a.win.len ≠ 1) (hlb : b.win.len ≠ 1)
+    (hoa : ∀ i ∈ a.offsets, 0 ≤ i ∧ i < (a.win.len : Int)) (hob : ∀ j ∈ b.offsets, 0 ≤ j ∧ j < (b.win.len : Int))
+    (hnd : a.offsets.Nodup)
+    (hA : InBuf st a.win.buf a.win.off a.win.len) (hB : InBuf st b.win.buf b.win.off b.win.len) :
+    ∃ st', engArithVV st op numberTypes a b {} = .ok ⟨st', none, .fresh (cloneOf st a)⟩ ∧ st'.mheap = st.mheap ∧
+      (∀ (k : Nat) i j, a.offsets[k]? = some i → b.offsets[k]? = some j →
+        cell st' st.heap.size i.toNat =
+          some (.app2 op (cellD st a.win.buf (a.win.off + i.toNat)) (cellD st b.win.buf (b.win.off + j.toNat)))) ∧
+      (∀ b' k, b' < st.heap.size → cell st' b' k = cell st b' k) := by
+  apply engArithVV_safe_mixed_order' st op numberTypes a b ⟨by simpa using hnum, hdt, hsh⟩ (by simpa using hk) _
+    hma hmb hla hlb hoa hob hnd hA hB
+  unfold sameOrd
+  simpa using hord
+
+/-- `tensor.Copy` between tensors of different data order copies element by element along both
+    iterators (i.e. by coordinate), never the raw storage (the `fix:` of finding F26). -/
+theorem copy_mixed_order_by_coordinate (st : St) (dst src : Dense) (hdt : dst.dt = src.dt)
+    (hord : dst.ap.o.col ≠ src.ap.o.col) :
+    Dense.copy st dst src = (do
+      let (s, d) ← Dense.copyMask st dst src
+      let s ← Dense.copyIterOffsets s d.win src.win d.offsets src.offsets
+      pure (s, d)) := by
+  have hso : Dense.sameOrder dst src = false := by
+    unfold Dense.sameOrder; simpa using hord
+  unfold Dense.copy Dense.copyDenseIter
+  simp [hdt, hso]
+
+/-! ## non-vacuity -/
+
+example : isVector [2, 3] = false ∧ isScalarEquiv [2, 3] = false ∧ inBox [2, 3] [1, 2] = true ∧
+    (match ltoi [2, 3] (calcStridesCol [2, 3]) [1, 2] with | .ok 5 => true | _ => false) = true ∧
+    colRank [2, 3] [1, 2] = 5 ∧ rowRank [2, 3] [1, 2] = 5 ∧ colRank [2, 3] [0, 1] = 2 ∧ rowRank [2, 3] [0, 1] = 1 := by decide
+
+example : FlatIt.offsets { shape := [2, 3], strides := prefixProds 1 [2, 3], fin := true } = [0, 2, 4, 1, 3, 5] := by decide
+
 end TM.C16
